@@ -44,7 +44,7 @@ def rules_for(prop):
     CODEC = ("rxsci/data/codec.py",)
     FILEIO = ("rxsci/io/file.py",)
     table = {
-        "C01": per_subscription() + [mx.rule_ev1, ag.rule_ag1, ag.rule_ag2, ag.rule_ag3_small, ag.rule_ag3_map_filter, ag.rule_ag3_do_action, scan.rule_sc1, scan.rule_sd2, tm.rule_tm4, st.rule_st5, seq.rule_fw2, ms.rule_ms, ms.rule_ms6, ms.rule_tp1, named(grp.rule_fw1, heads=("group_by",)), grp.rule_eq2],
+        "C01": per_subscription() + [mx.rule_ev1, ag.rule_ag1, ag.rule_ag2, ag.rule_ag3_small, ag.rule_ag3_map_filter, ag.rule_ag3_do_action, scan.rule_sc1, scan.rule_sd2, tm.rule_tm4, st.rule_st5, seq.rule_fw2, ms.rule_ms, ms.rule_ms6, ms.rule_tp1, named(grp.rule_fw1, heads=("group_by",)), grp.rule_eq2, mx.rule_mx9],
         "C02": st.RULES + [ms.rule_tp1, ms.rule_ms, ms.rule_ms6, tm.rule_tm5, scan.rule_sd1, mx.rule_mx6, sub.rule_gen1, grp.rule_eq2],
         "C03": mx.RULES + [st.rule_st8, ms.rule_ms, ms.rule_ms6, ms.rule_tp1, sub.rule_sub3, grp.rule_eq2],
         "C04": [named(grp.rule_fwd1, heads=("group_by",)), named(grp.rule_eq1, files=("rxsci/operators/group_by.py", "rxsci/state/memory_store.py", "rxsci/state/store.py",
@@ -53,18 +53,18 @@ def rules_for(prop):
         "C05": [named(grp.rule_fwd1, heads=("roll",)), grp.rule_roll, named(grp.rule_fw1, heads=("roll_count",)), scoped(st.rule_st2_3_4, ROLL), scoped(st.rule_st6, ROLL),
                 named(lv.rule_lv, only=("roll_mux._roll.subscribe", "roll_mux._roll_count.subscribe")), ms.ms_for_types("int", "uint"), ms.rule_tp1, named(mx.rule_mx5, heads_only=("roll",)), *plumbing(*ROLL)],
         "C08": per_subscription("rxsci/operators/tee_map.py") + [tm.rule_tm123, tm.rule_tm4, tm.rule_tm5, st.rule_st5, mx.rule_mx7, ag.rule_ag1, lv.rule_lv, mx.rule_mx5],
-        "C09": scan.RULES + per_subscription("rxsci/operators/scan.py", "rxsci/operators/count.py", "rxsci/data/to_list.py", "rxsci/data/to_array.py") + [ms.ms_for_types("int", "float", "bool", "obj", maps=True), ms.rule_tp1, grp.rule_eq2],
+        "C09": scan.RULES + per_subscription("rxsci/operators/scan.py", "rxsci/operators/count.py", "rxsci/data/to_list.py", "rxsci/data/to_array.py") + [ms.ms_for_types("int", "float", "bool", "obj", maps=True), ms.rule_tp1, grp.rule_eq2, mx.rule_mx6],
         "C10": seq.RULES + per_subscription(*SEQ) + [only_constructs(ag.rule_ag1, SEQ), only_constructs(ag.rule_ag2, SEQ), scan.rule_sc1, named(grp.rule_eq1, files=("rxsci/operators/distinct.py", "rxsci/operators/distinct_until_changed.py",
                                                        "rxsci/operators/first.py", "rxsci/operators/take.py", "rxsci/operators/last.py",
                                                        "rxsci/data/lag.py", "rxsci/data/pad.py", "rxsci/operators/start_with.py",
                                                        "rxsci/data/batch.py"), min_instances=1), ms.ms_for_types("int", "bool", "obj", maps=True), ms.rule_tp1, grp.rule_eq2],
-        "C11": [io.rule_framing, pr.rule_pr1, pr.rule_pr2, grp.rule_pr3, seq.rule_dp6, st.rule_st1, tm.rule_tm123, tm.rule_tm4, io.rule_fr3_prompt, io.rule_codec, seq.rule_opt1_time_split, grp.rule_dur1,
+        "C11": [io.rule_framing, pr.rule_pr1, pr.rule_pr2, grp.rule_pr3, seq.rule_dp6, st.rule_st1, tm.rule_tm123, tm.rule_tm4, io.rule_fr3_prompt, io.rule_codec, seq.rule_opt1_time_split, grp.rule_dur1, only_constructs(ag.rule_ag1, ("rxsci/operators/flat_map.py",)), only_constructs(ag.rule_ag2, ("rxsci/operators/flat_map.py",)),
                 *plumbing(*("rxsci/operators/scan.py", "rxsci/data/roll.py", "rxsci/data/split.py", "rxsci/data/time_split.py", "rxsci/operators/group_by.py",
                                        "rxsci/operators/tee_map.py", "rxsci/data/batch.py", "rxsci/operators/multiplex.py"), user_results=False)],
         "C12": [ms.ms_for_types("int", "float", "bool", "obj", maps=True), ms.rule_tp1, scan.rule_sd1, scan.rule_sc1, grp.rule_eq2, num.rule_nm1, ag.rule_ag4, named(scan.rule_pu1, files=("rxsci/math/sum.py", "rxsci/math/mean.py", "rxsci/math/min.py", "rxsci/math/max.py",
                                                           "rxsci/math/variance.py", "rxsci/math/stddev.py", "rxsci/math/formal/variance.py",
                                                           "rxsci/math/formal/stddev.py", "rxsci/math/formal/__init__.py"))],
-        "C13": er.RULES + [mx.rule_wc2, st.rule_st8, mx.rule_ev1, error_paths(mx.rule_mx_flat), scan.rule_sc1, *plumbing(*("rxsci/error/ignore.py", "rxsci/error/map.py", "rxsci/error/router.py", "rxsci/operators/map.py",
+        "C13": er.RULES + [mx.rule_mx9, mx.rule_wc2, st.rule_st8, mx.rule_ev1, error_paths(mx.rule_mx_flat), scan.rule_sc1, *plumbing(*("rxsci/error/ignore.py", "rxsci/error/map.py", "rxsci/error/router.py", "rxsci/operators/map.py",
                                                                                    "rxsci/operators/starmap.py", "rxsci/operators/filter.py", "rxsci/operators/scan.py", "rxsci/operators/multiplex.py"))],
         "C14": ms.RULES + [only_constructs(grp.rule_fl1, ("rxsci/state/memory_store.py",))],
         "C15": [io.rule_framing] + per_subscription(*FRAMING),
